@@ -12,11 +12,18 @@ import cgroup
 from cgroup import Case
 
 ID = "C05"
-LEAN_MODULES = ["FaxVerif.C05.Theorems"]
-LEAN_SOURCES = ["FaxVerif/C05", "FaxVerif/Cpp"]
+LEAN_MODULES = ["FaxVerif.C05.Theorems", "FaxVerif.C05.TheoremsFragment"]
+LEAN_SOURCES = ["FaxVerif/C05", "FaxVerif/Cpp", "FaxVerif/Gen"]
 DRIVER = cgroup.DRIVER
 SETUP_MODULES = cgroup.DRIVER_IMPORTS  # what the driver imports
 THEOREMS = [
+    "FaxVerif.C05.fragment_job_correct_partial",
+    "FaxVerif.C05.fragment_job_blocks_partial",
+    "FaxVerif.C05.fragment_job_split",
+    "FaxVerif.C05.fragment_prefix_independent",
+    "FaxVerif.C05.fragment_perm",
+    "FaxVerif.C05.fragment_event_post_partial",
+    "FaxVerif.C05.fragment_init_pre",
     "FaxVerif.C05.job_is_per_event",
     "FaxVerif.C05.split",
     "FaxVerif.C05.prefix_independent",
@@ -39,7 +46,13 @@ TRUSTED_BASE = [
 ]
 ASSUMPTIONS = ["a faulting event ends the job (exception / failed status under EventLoop and cmsRun)"]
 LEVEL_TEXT = (
-    "Lean 4 theorems for every package accepted by the verified static checker EventLocal (definite assignment from an empty "
+    "(1) For ALL queries of the fragment F0-lite of the translator model (Gen.compile, tied to the real translator by text on every "
+    "run), all three backends, all number models and ALL event lists on which the query is defined: one job writes exactly the "
+    "concatenation of the rows the query denotes event by event (fragment_job_correct_partial), hence splitting across jobs "
+    "(fragment_job_split), independence of the prefix (fragment_prefix_independent: the rows of event k are those of running it "
+    "alone from the initial class state) and permutation of the events (fragment_perm) — proved from the class-state invariant "
+    "'vector columns empty, scalar columns declared' that every event re-establishes (fragment_event_post_partial, "
+    "fragment_init_pre). (2) Lean 4 theorems for every package accepted by the verified static checker EventLocal (definite assignment from an empty "
     "initial knowledge + vector columns cleared after every fill): one job = concatenation of per-event runs from the initial "
     "class state, for all event lists; split, prefix-independence and permutation corollaries. The checker is run on the "
     "implementation's own parsed output for every generated query on the three backends, so each accepted program is a theorem "
@@ -47,11 +60,12 @@ LEVEL_TEXT = (
 )
 LEVEL_NOTE = (
     "Proved: soundness of the checker w.r.t. the modelled C++ semantics (exec_sound, emp_sound, runEvent_local), no bound on "
-    "events or program size. Not proved: that the translator's output is ALWAYS accepted (that is sampled: every generated "
-    "query, three backends); the C++ semantics and the text parser are trusted. Programs containing opaque user C++ are outside "
+    "events or program size; and, without the checker, event-locality of every program of the fragment F0-lite (success "
+    "direction: jobs containing an event on which the query faults are outside the fragment theorems). Not proved: that the "
+    "translator's output beyond the fragment is ALWAYS accepted by the checker (that is sampled: every generated query, three backends); the C++ semantics and the text parser are trusted. Programs containing opaque user C++ are outside "
     "the checker (counted separately)."
 )
-TECHNIQUE = "Lean 4 soundness proof of a static event-locality checker, run on the implementation's output; differential execution of the modelled program (job vs per-event, permuted)"
+TECHNIQUE = "Lean 4 job-level compiler-correctness proof for the translator model (all fragment programs x all event lists) + Lean 4 soundness proof of a static event-locality checker run on the implementation's output; differential execution of the modelled program (job vs per-event, permuted)"
 DESIGN_REF = "DESIGN.md §4 C05"
 
 N_QUICK, N_THOROUGH = 150, 1500
